@@ -6,6 +6,11 @@ synthetic libraries and on the shipped library, and the verdict is the C08 oracl
 override carried by every simulated building, unset ones equal to the reference value, the three
 stock averages and the floor areas equal to their formulae with the overridden values.
 """
+import os
+
+import core
+import s3_util as S3
+import uwgutil as U
 from props import c07
 
 MODULE = 'UwgVerif.Props.C08'
@@ -17,8 +22,216 @@ THEOREMS = [
 ]
 
 
+OV = ('glzr', 'shgc', 'albwall', 'albroof', 'vegroof', 'flr_h')
+ZONES = ('1A', '1B', '2A', '3B-CA', '3C', '4A', '4C', '5A', '5C', '6A', '6B', '7', '8')
+STOCKS = [[('largeoffice', 'pst80', 0.4), ('midriseapartment', 'pst80', 0.6)],
+          [('hospital', 'new', 0.25), ('smalloffice', 'pre80', 0.25), ('warehouse', 'Pst80', 0.5)],
+          [('supermarket', 'NEW', 1.0)],
+          [('primaryschool', 'pre80', 0.125), ('largehotel', 'new', 0.875)],
+          [('stripmall', 'pst80', 0.5), ('stripmall', 'new', 0.5)]]
+ACCEPT = {'01': [0.0, 1.0, 0.5, 0.25, 0.375, 0.91, 0.05, 1, 0], 'flr_h': [3.05, 2.5, 4.5, 6, 0.5]}
+REFUSE = {'01': [-0.2, -1e-9, 1.0000001, 1.4, 1.5, 7.0, float('nan')], 'flr_h': [0, 0.0, -3.05, float('nan')]}
+
+
+def building_values(b):
+    return {'glzr': b.building.glazing_ratio, 'shgc': b.building.shgc, 'albwall': b.wall.albedo,
+            'albroof': b.roof.albedo, 'vegroof': b.roof.vegcoverage, 'flr_h': b.building.floor_height}
+
+
+def oracle_generated(m, want, pristine):
+    """C08 on a generated model: `want` maps each override to the accepted value in force (None = unset)."""
+    uwg = U.uwg_mod()
+    import uwg.uwg as UM
+    bz = '1A' if m.zone == '1B' else '5B' if m.zone == '5C' else m.zone
+    zi = UM.REF_ZONETYPE.index(bz)
+    for k in OV:
+        got = getattr(m, k)
+        if (got is None) != (want[k] is None) or (got is not None and not got == want[k]):
+            return 'model.%s reads %r, the accepted value in force is %r' % (k, got, want[k])
+    if not m.BEM:
+        return 'no building simulated'
+    stock = {}
+    for t, e, f in m.bld:
+        stock[(t, e.lower())] = stock.get((t, e.lower()), 0.) + f
+    sim = {(b.bldtype, b.builtera): b.frac for b in m.BEM}
+    if sim != stock:
+        return 'simulated buildings %r are not the current stock %r' % (sorted(sim.items()), sorted(stock.items()))
+    rg = sh = aw = 0.
+    for b in m.BEM:
+        ref = pristine[UM.REF_BLDTYPE.index(b.bldtype)][UM.REF_BUILTERA.index(b.builtera)][zi]
+        have, refv = building_values(b), building_values(ref)
+        for k in OV:
+            if want[k] is not None and not have[k] == want[k]:
+                return 'building %s/%s carries %s = %r although the override in force is %r' % (
+                    b.bldtype, b.builtera, k, have[k], want[k])
+            if want[k] is None and not have[k] == refv[k]:
+                return 'override %s is unset but building %s/%s carries %r, its reference value is %r' % (
+                    k, b.bldtype, b.builtera, have[k], refv[k])
+        rg += b.frac * have['glzr']
+        sh += b.frac * have['shgc']
+        aw += b.frac * have['albwall']
+    for name, acc in (('r_glaze_total', rg), ('SHGC_total', sh), ('alb_wall_total', aw)):
+        if getattr(m, name) != acc:
+            return '%s is %r, the fraction-weighted sum over the simulated buildings is %r' % (
+                name, getattr(m, name), acc)
+    if hasattr(m, 'UCM'):
+        if m.UCM.alb_wall != aw:
+            return 'canyon model wall albedo %r, stock average %r' % (m.UCM.alb_wall, aw)
+        fa = (1 - rg) * (1 - aw) + rg * (1 - 0.75 * sh)
+        if m.UCM.facAbsor != fa:
+            return 'canyon facade absorptivity %r, from the stock averages %r' % (m.UCM.facAbsor, fa)
+    return None
+
+
+def setter_histories(chk, uwg, pristine):
+    """Sequences of accepted and REFUSED (caught) assignments to the six overrides on one long-lived object,
+    each followed by generate(): the value in force is the last accepted one (or unset)."""
+    rng = chk.rng
+    rounds = 40 if chk.tier == 'quick' else 400
+    m = U.new_model(outdir=chk.work(), outname='c08h.epw', nday=1, dtsim=300)
+    want = {k: None for k in OV}
+    log, bad, nops = [], 0, {'accept': 0, 'refuse': 0, 'unset': 0}
+    for r in range(rounds):
+        if r % 8 == 0:                        # new object from time to time: refusals on never-set overrides
+            m = U.new_model(outdir=chk.work(), outname='c08h.epw', nday=1, dtsim=300)
+            want = {k: None for k in OV}
+            log = []
+        if r % 3 == 2 and isinstance(m.bld, list):
+            # the stock revised IN PLACE (item assignment on the list the model holds), not re-assigned
+            i = rng.randrange(len(m.bld))
+            m.bld[i] = (rng.choice(['hospital', 'medoffice', 'smallhotel', 'quickservicerestaurant']),
+                        rng.choice(['pre80', 'new', 'Pst80']), m.bld[i][2])
+            log.append(['stock edited in place', list(m.bld), m.zone])
+        else:
+            m.bld = [tuple(x) for x in rng.choice(STOCKS)]
+            m.zone = rng.choice(ZONES)
+            log.append(['stock', list(m.bld), m.zone])
+        for k in rng.sample(OV, rng.randint(1, 6)):
+            fam = 'flr_h' if k == 'flr_h' else '01'
+            for _ in range(rng.randint(1, 3)):
+                x = rng.random()
+                if x < 0.45:
+                    v = rng.choice(REFUSE[fam])
+                    res = S3.try_assign(m, k, v)
+                    log.append([k, repr(v), res])
+                    nops['refuse'] += 1
+                    if res == 'accepted':
+                        want[k] = v            # (judged by the setter tie of C07/C08; keep the history honest)
+                elif x < 0.85:
+                    v = rng.choice(ACCEPT[fam])
+                    setattr(m, k, v)
+                    want[k] = v
+                    log.append([k, repr(v), 'set'])
+                    nops['accept'] += 1
+                else:
+                    setattr(m, k, None)
+                    want[k] = None
+                    log.append([k, 'None', 'set'])
+                    nops['unset'] += 1
+        try:
+            with core.quiet():
+                m.generate()
+            msg = oracle_generated(m, want, pristine)
+        except Exception as e:  # noqa: BLE001
+            msg = 'generate() raised %s: %s' % (type(e).__name__, str(e)[:150])
+        if msg:
+            bad += 1
+            if bad <= 3:
+                chk.violation('impl-violation', 'overrides after refused assignments (setter history; generate)',
+                              case={'operations_on_one_object': log[-25:], 'in_force': {k: repr(v) for k, v in want.items()}},
+                              observed=msg,
+                              expected='every building carries the last ACCEPTED value of each override (reference '
+                                       'value when unset); a refused assignment changes nothing')
+            m = U.new_model(outdir=chk.work(), outname='c08h.epw', nday=1, dtsim=300)
+            want = {k: None for k in OV}
+            log = []
+    chk.direct('override-setter-histories(refused assignments; generate)', rounds, rounds,
+               'one long-lived UWG object: per round a new stock / zone (every third round the stock list is edited in place '
+               'instead) and 1..6 overrides each assigned 1..3 times '
+               'with accepted values (0, 1, interior, ints), None, or values the setter must refuse (-0.2, -1e-9, '
+               '1.0000001, 1.4, 1.5, 7, NaN; flr_h 0, -3.05, NaN) under try/except, then generate(): getters, every '
+               'simulated building, the three stock averages, UCM.alb_wall and UCM.facAbsor must reflect the last '
+               'accepted value (reference value when unset)', mismatches=bad, branches=nops)
+
+
+def param_file_spellings(chk, uwg, pristine):
+    """The parameter-file route with every spelling of a number that float() reads."""
+    rng = chk.rng
+    work = chk.work()
+    src = U.rp(U.PARAM_SGP)
+    ncase = 40 if chk.tier == 'quick' else 400
+    file_key = {'glzr': 'glzR', 'shgc': 'SHGC', 'albwall': 'albWall', 'albroof': 'albRoof', 'vegroof': 'vegRoof',
+                'flr_h': 'flr_h'}
+    values = {'01': [0.0, 1.0, 0.5, 0.25, 0.375, 0.1, 0.91], 'flr_h': [3.05, 4.5, 0.5, 6.0]}
+    bad, forms = 0, {}
+    # every spelling of every value at least once over the run: walk the spelling lists round robin
+    pool = {}
+    for fam, vs in values.items():
+        pool[fam] = [(v, s) for v in vs for s in S3.float_spellings(v)]
+        rng.shuffle(pool[fam])
+    ptr = {'01': 0, 'flr_h': 0}
+    for n in range(ncase):
+        sub = rng.sample(OV, rng.choice([1, 2, 3, 6, 6]))
+        cells, want = {}, {k: None for k in OV}
+        for k in OV:
+            if k in sub:
+                fam = 'flr_h' if k == 'flr_h' else '01'
+                v, text = pool[fam][ptr[fam] % len(pool[fam])]
+                ptr[fam] += 1
+                cells[file_key[k]] = text
+                want[k] = v
+                shape = ('sign' if text.strip()[0] in '+-' else 'dot' if text.strip()[0] == '.' else
+                         'exp' if 'e' in text.lower() else 'space' if text != text.strip() else
+                         'int' if '.' not in text else 'plain')
+                forms[shape] = forms.get(shape, 0) + 1
+            else:
+                cells[file_key[k]] = rng.choice(['', '', ' '])
+        # geometry that enters the floor areas, spelled freely as well
+        geo = {'bldHeight': rng.choice([10.0, 25.0, 7.5]), 'bldDensity': rng.choice([0.5, 0.25, 0.375]),
+               'charLength': rng.choice([1000.0, 500.0])}
+        for gk, gv in geo.items():
+            cells[gk] = rng.choice(S3.float_spellings(gv))
+        pth = S3.write_param_file(src, os.path.join(work, 'sp%d.uwg' % (n % 4)), cells)
+        try:
+            with core.quiet():
+                m = uwg.UWG.from_param_file(pth, epw_path=U.rp(U.EPW_SGP), new_epw_dir=work, new_epw_name='sp.epw')
+                m.nday = 1
+                m.generate()
+            msg = oracle_generated(m, want, pristine)
+            if msg is None:
+                for gk, gv in geo.items():
+                    if getattr(m, gk.lower()) != gv:
+                        msg = 'model.%s reads %r, the file says %r' % (gk.lower(), getattr(m, gk.lower()), cells[gk])
+                h = 3.05 if want['flr_h'] is None else want['flr_h']
+                area = (geo['charLength'] ** 2) * geo['bldDensity'] * geo['bldHeight'] / h
+                for b in m.BEM:
+                    if msg is None and b.fl_area != b.frac * area:
+                        msg = 'floor area of %s is %r, expected frac*L^2*density*height/floor height = %r' % (
+                            b.bldtype, b.fl_area, b.frac * area)
+        except Exception as e:  # noqa: BLE001
+            msg = '%s: %s' % (type(e).__name__, str(e)[:150])
+        if msg:
+            bad += 1
+            if bad <= 3:
+                chk.violation('impl-violation', 'overrides given in a parameter file (legal float spellings)',
+                              case={'cells_as_written': cells, 'values': {k: repr(v) for k, v in want.items()}},
+                              observed=msg,
+                              expected='a cell that float() reads is the override value carried by every building; '
+                                       'an empty cell leaves the reference values')
+    chk.direct('parameter-file-route(float spellings)', ncase, ncase,
+               'copies of resources/initialize_singapore.uwg with subsets of the six override cells (and bldHeight, '
+               'bldDensity, charLength) written in every spelling float() accepts - 0.5 .5 +.5 +0.5 0.50 00.5 5e-1 '
+               '5.E-1 .05e1 1 1. +1 1e0 .0 0. -0 0e5, padded with blanks - and the others blank: from_param_file; '
+               'generate(); getters, every building, stock averages, canyon inputs and floor areas as above',
+               mismatches=bad, branches=forms)
+
+
 def run(chk):
     c07.run(chk, focus='C08', module=MODULE, theorems=THEOREMS)
+    uwg = U.uwg_mod()
+    pristine = uwg.UWG.load_refDOE()[0]
+    setter_histories(chk, uwg, pristine)
+    param_file_spellings(chk, uwg, pristine)
 
 
 def replay(chk, path):
